@@ -45,6 +45,16 @@ def setup():
             print(outk[-1500:])
     except Exception as e:  # best effort: the C11 check builds it itself and reports what breaks
         print('kernel tie: not built during setup:', repr(e))
+    # the symbolic tensor tie of C17 (harness/gen_tensor_kernels.py -> Gen/TensorKernels.lean -> Props/TensorTie.lean)
+    try:
+        from . import gen_tensor_kernels
+        gen_tensor_kernels.generate()
+        okk, outk, dtk = C.lake_build(['Femio.Props.TensorTie'], timeout=3000)
+        print(f'lake build Femio.Props.TensorTie: {"ok" if okk else "FAILED"} in {dtk:.0f}s')
+        if not okk:
+            print(outk[-1500:])
+    except Exception as e:  # best effort: the C17 check builds it itself and reports what breaks
+        print('tensor tie: not built during setup:', repr(e))
     return 0 if okb else 1
 
 
